@@ -73,6 +73,10 @@ pub struct MigOp {
 }
 
 pub struct MigRead {
+    /// index of the wallet pre-state in `Fixture::pres` (1 = "mid", 2 = "full")
+    pub pre: usize,
+    /// the writers interleaved with this read (see twoconn::mig_writer)
+    pub writers: Vec<&'static str>,
     pub name: String,
     pub setup: Arc<dyn Fn(&mut Wallet, &Universe) + Send + Sync>,
     pub read: Arc<dyn Fn(&Connection, &Universe, AccountUuid) -> Result<String, String> + Send + Sync>,
@@ -439,7 +443,23 @@ pub fn migration_reads() -> Vec<MigRead> {
     // Transfer 1 of `live` spends a2, which the "mid" wallet knows as an unspent Orchard note; a
     // scan of FIRST+2.. (where a2 is spent) turns the answer into InputsSpent.
     v.push(MigRead {
+        pre: 1,
+        writers: vec!["scan_rest", "truncate"],
         name: "mig_read_satisfiability_a2@live".into(),
+        setup: setup_live(),
+        read: Arc::new(move |c, u, a| {
+            let tx = live(u).transactions()[1].clone();
+            es(reader(c, u, a)?.check_step_satisfiability(&tx, settle)).map(|r| format!("{r:?}"))
+        }),
+    });
+    // The same question to a fully scanned wallet, where a2's spend (FIRST+4) lies inside the scanned
+    // region: InputsSpent as of the tip. A rollback below the spend (truncate_to_height(FIRST+3))
+    // un-mines it AND lowers the fully-scanned height, so the oracle's two reads - the observation
+    // height and the observations - disagree unless they come from one snapshot.
+    v.push(MigRead {
+        pre: 2,
+        writers: vec!["truncate_below_spend", "truncate"],
+        name: "mig_read_satisfiability_a2@live-full".into(),
         setup: setup_live(),
         read: Arc::new(move |c, u, a| {
             let tx = live(u).transactions()[1].clone();
@@ -449,6 +469,8 @@ pub fn migration_reads() -> Vec<MigRead> {
     // A known-unspent input beside one the wallet has never seen (NotYetSatisfiable until a spend
     // of the first is scanned).
     v.push(MigRead {
+        pre: 1,
+        writers: vec!["scan_rest", "truncate"],
         name: "mig_read_satisfiability_a2+unknown@live".into(),
         setup: setup_live(),
         read: Arc::new(move |c, u, a| {
@@ -458,6 +480,8 @@ pub fn migration_reads() -> Vec<MigRead> {
     });
     // Asked through account B's store: a2 is not B's note.
     v.push(MigRead {
+        pre: 1,
+        writers: vec!["scan_rest", "truncate"],
         name: "mig_read_satisfiability_a2_as_other_account@live".into(),
         setup: setup_live(),
         read: Arc::new(move |c, u, _a| {
@@ -469,6 +493,8 @@ pub fn migration_reads() -> Vec<MigRead> {
     });
     // Inclusion of a transaction inside the scanned region ...
     v.push(MigRead {
+        pre: 1,
+        writers: vec!["scan_rest", "truncate"],
         name: "mig_read_mined_height_a2@live".into(),
         setup: setup_live(),
         read: Arc::new(|c, u, a| es(reader(c, u, a)?.mined_height(txid_a2(u))).map(|r| format!("{r:?}"))),
@@ -476,12 +502,16 @@ pub fn migration_reads() -> Vec<MigRead> {
     // ... and of one the wallet has not scanned yet (a5's transaction, FIRST+3): None until a scan
     // reaches it; a truncation takes the first one away again.
     v.push(MigRead {
+        pre: 1,
+        writers: vec!["scan_rest", "truncate"],
         name: "mig_read_mined_height_a5@live".into(),
         setup: setup_live(),
         read: Arc::new(|c, u, a| es(reader(c, u, a)?.mined_height(TxId::from_bytes(u.note("a5").txid))).map(|r| format!("{r:?}"))),
     });
     // One SQL statement projecting every record of the account.
     v.push(MigRead {
+        pre: 1,
+        writers: vec!["scan_rest", "truncate"],
         name: "mig_read_list_migrations@live".into(),
         setup: setup_live(),
         read: Arc::new(|c, u, a| {
@@ -507,16 +537,22 @@ pub fn migration_reads() -> Vec<MigRead> {
 pub fn migration_reads_without_snapshot_claim() -> Vec<MigRead> {
     vec![
         MigRead {
+            pre: 1,
+            writers: vec!["scan_rest", "truncate"],
             name: "mig_read_get_migration@live".into(),
             setup: setup_live(),
             read: Arc::new(|c, u, a| es(reader(c, u, a)?.get_migration()).map(|s| render_state(&s))),
         },
         MigRead {
+            pre: 1,
+            writers: vec!["scan_rest", "truncate"],
             name: "mig_read_latest_migration@live".into(),
             setup: setup_live(),
             read: Arc::new(|c, u, a| es(reader(c, u, a)?.latest_migration()).map(|s| render_state(&s))),
         },
         MigRead {
+            pre: 1,
+            writers: vec!["scan_rest", "truncate"],
             name: "mig_read_lock_owners@live".into(),
             setup: setup_live(),
             read: Arc::new(|c, u, a| es(reader(c, u, a)?.migration_lock_owners()).map(|s| format!("{s:?}"))),
